@@ -1,6 +1,7 @@
 import CG.Drv.Script
 import CG.Model.TxScript
 import CG.Crypto.Secp256k1
+import CG.Spec.SighashCoverage
 namespace CG.Drv.C03
 open CG CG.Drv CG.Drv.Script CG.Model.Interp
 
@@ -48,6 +49,12 @@ def handle (op : String) (a : List String) : Option String :=
       some (r ++ "\t" ++ r)
     | _, _, _, _ => some "bad-request\tbad-request"
   | "c03.signed", _ => some "*\tok"
+  -- c03.mut <seed> <nin> <nout> <idx> <type> <mutation>: the verdict is decided by the coverage table alone
+  | "c03.mut", [_seed, _nin, _nout, _idx, ty, m] =>
+    match ty.toNat?.bind (fun t => Spec.SighashCoverage.covered t m) with
+    | some true => some "*\terr"
+    | some false => some "*\tok"
+    | none => some "bad-request\tbad-request"
   | _, _ => none
 
 end CG.Drv.C03
